@@ -789,8 +789,8 @@ Section Phase1.
         + unfold er in Hin. apply in_map_iff in Hin. destruct Hin as (a & E & Ha). inversion E as [[E1 E2]]; subst f.
           pose proof (Wref_single a Ha) as Hd. set (d := feat_in (c_refs k) (fst a)) in *.
           assert (Hfd : find_feat (c_refs k) (fst a) = Some d).
-          { unfold d, feat_in in *. destruct (find_feat (c_refs k) (fst a)) as [d'|] eqn:E; [reflexivity|].
-            exfalso. apply (find_feat_none _ _ E). rewrite <- Wrefs. apply in_map. exact Ha. }
+          { unfold d, feat_in in *. destruct (find_feat (c_refs k) (fst a)) as [d'|] eqn:Eff; [reflexivity|].
+            exfalso. apply (find_feat_none _ _ Eff). rewrite <- Wrefs. apply in_map. exact Ha. }
           rewrite Hfd. destruct (f_many d) eqn:Em.
           * exfalso. pose proof (enc_ref_many_no_elems d (isset iss (fst a)) (snd a) (fst a) Em) as Hno.
             unfold enc_xelems in Hno. cbn [fst snd] in Hno. rewrite E2 in Hno.
